@@ -519,6 +519,11 @@ func (k *keyedSession) pull(it *item) {
 	s := k.session
 	mask := s.randMask(k.t.resource, 50, true)
 	uo := s.r.Intn(3) == 0
+	k.pullWith(it, mask, uo)
+}
+
+func (k *keyedSession) pullWith(it *item, mask *fieldmaskpb.FieldMask, uo bool) {
+	s := k.session
 	s.cur = it.cur
 	sp := k.spell(it)
 	s.keyedOpen = func(req protoreflect.Message) string {
@@ -785,6 +790,14 @@ func runKeyedSession(t triple, sid sessionID, mon *lib.Monitor) (lines, verdicts
 		default:
 			s.doClose()
 		}
+	}
+	if ls := live(); !s.failed && len(ls) > 0 && sid.Seq%2 == 0 {
+		// the first write after an updates_only subscription whose existence is observed on the bus (first.go)
+		s.step = sid.Steps
+		if s.openCount() >= 3 {
+			s.doClose()
+		}
+		k.firstWrite(ls[s.r.Intn(len(ls))])
 	}
 	if !s.failed {
 		s.step = sid.Steps
